@@ -496,6 +496,17 @@ func wrapVR(p Push) bool {
 			return false // (a reader that goes on after its first io.EOF is not the same behind a limited reader)
 		}
 	}
+	// ... and nothing but (at most) the final io.EOF may follow the last data: behind the inner
+	// limited reader a 0-byte answer after the last byte would read as io.EOF
+	last := -1
+	for i, e := range p.Script {
+		if e.Kind == 'D' && len(e.Data) > 0 {
+			last = i
+		}
+	}
+	if rest := p.Script[last+1:]; len(rest) > 1 || (len(rest) == 1 && rest[0].Kind != 'E') {
+		return false
+	}
 	return crc32.ChecksumIEEE([]byte(p.DG+"/"+strconv.FormatInt(p.SZ, 10)))%3 == 0
 }
 
